@@ -73,7 +73,46 @@ structure Target where
 deriving DecidableEq, Repr
 
 inductive Err | platform | targetOs | targetArch | distroName | distroVersion
+  | descriptor   -- buildpack.toml cannot be read: `libcnb_runtime` reads its `api` key before anything else and answers a failure with
+                 -- a message on stderr and `exit(254)` (no `on_error`); the later `Error::CannotReadBuildpackDescriptor` is for a
+                 -- document that has an `api` key and does not decode otherwise (not generated)
+  | plan         -- `Error::CannotReadBuildpackPlan`
+  | store        -- `Error::CannotReadStore`
 deriving DecidableEq, Repr
+
+/-- what the runtime finds at the path of a document it reads with `read_toml_file` (`<buildpack dir>/buildpack.toml`, the
+buildpack plan file, `<layers>/store.toml`), as raw file-system state — not as a decoded value -/
+inductive Doc
+  /-- a regular file (or a link to one) whose bytes are a `String` that the `toml` crate decodes into the document's type: the
+  decoded value is the `plan` / `store` / `desc` field of the inputs (for the store also: no file, when that field is `none`) -/
+  | asGiven
+  /-- nothing at the path (`ErrorKind::NotFound`; also a dangling link) -/
+  | missing
+  /-- something is there but `fs::read_to_string` fails on it before any byte is looked at: a directory, a link to a directory -/
+  | unreadable
+  /-- a regular file (or a link to one) with these bytes, which are not a `String` (not valid UTF-8: `fs::read_to_string` fails with
+  `InvalidData`) or are a `String` the `toml` crate does not decode into the document's type -/
+  | undecodable (b : Bytes)
+deriving DecidableEq, Repr
+
+/-- the documents of a phase; the default is "all three as the decoded fields say" -/
+structure Docs where
+  desc : Doc := .asGiven
+  plan : Doc := .asGiven
+  store : Doc := .asGiven
+deriving DecidableEq, Repr
+
+/-- `libcnb_common::toml_file::TomlFileError`, with the one `io::ErrorKind` the code looks at -/
+inductive TomlFileErr | ioNotFound | ioOther | tomlDe
+deriving DecidableEq, Repr
+
+/-- `read_toml_file`: `fs::read_to_string(path)?` (fails with `IoError`: not found / a directory / bytes that are not a `String`),
+then `toml::from_str(&contents)?` (fails with `TomlDeserializationError`). `none` = `Ok(value)`. -/
+def Doc.readError (valid : Bytes → Bool) : Doc → Option TomlFileErr
+  | .asGiven => none
+  | .missing => some .ioNotFound
+  | .unreadable => some .ioOther
+  | .undecodable b => if valid b then some .tomlDe else some .ioOther
 
 /-- `env::var(name)`: `Err(NotPresent)` when unset, `Err(NotUnicode)` when not a `String` -/
 def envVar (valid : Bytes → Bool) : VarVal → Option Bytes
@@ -124,6 +163,8 @@ structure Inputs (X : Type) where
   /-- previous `store.toml`, if present (build only) -/
   store : Option X
   desc : X
+  /-- the raw state of the three documents (default: readable and decoded into the three fields above) -/
+  docs : Docs := {}
 
 /-- `DetectContext` / `BuildContext` (fields a phase does not have are `none`) -/
 structure Ctx (X : Type) where
@@ -147,6 +188,28 @@ def assemble {X : Type} (valid : Bytes → Bool) (i : Inputs X) : Except Err (Ct
     | .ok target =>
       .ok { appDir := i.cwd, bpDir := i.bpDir, layersDir := i.layersDir, target := target, env := env,
             plan := i.plan, store := i.store, desc := i.desc }
+
+/-- `libcnb_runtime_detect` (`build = false`) / `libcnb_runtime_build` (`build = true`) with the document reads in the code's order:
+`read_buildpack_descriptor()?` first, then the platform, then (build only) the buildpack plan
+(`read_toml_file(..).map_err(CannotReadBuildpackPlan)?`) and the store — `Err(IoError(e)) if is_not_found_error_kind(&e) => Ok(None)`,
+every other failure `CannotReadStore` —, then the target and the record construction (`assemble`; the platform read is pure, so
+reading it again there changes nothing). -/
+def assembleDocs {X : Type} (valid : Bytes → Bool) (build : Bool) (i : Inputs X) : Except Err (Ctx X) :=
+  match i.docs.desc.readError valid with
+  | some _ => .error .descriptor
+  | none =>
+    match readPlatformEnv valid i.plat with
+    | .error _ => .error .platform
+    | .ok _ =>
+      if build then
+        match i.docs.plan.readError valid with
+        | some _ => .error .plan
+        | none =>
+          match i.docs.store.readError valid with
+          | some .ioNotFound => assemble valid { i with store := none }
+          | some _ => .error .store
+          | none => assemble valid i
+      else assemble valid i
 
 /-- Rust's `str::from_utf8` acceptance (Unicode table 3-7: well-formed UTF-8 byte sequences) -/
 def utf8Valid : Bytes → Bool
